@@ -49,26 +49,26 @@ func register(p *PropDef) { registry[p.ID] = p }
 
 // WorkerOut is what one worker process reports.
 type WorkerOut struct {
-	Prop          string              `json:"prop"`
-	Seed          uint64              `json:"seed"`
-	Runs          int                 `json:"runs"`
-	Nontrivial    int                 `json:"nontrivial"`
-	Hashes        map[string]bool     `json:"hashes"`         // distinct event-log hashes
-	NTHashes      map[string]bool     `json:"nt_hashes"`      // ... among non-trivial runs
-	SimSeconds    float64             `json:"sim_seconds"`
-	Steps         int                 `json:"steps"`
-	Probes        map[string]int      `json:"probes"`
-	States        map[string]bool     `json:"states"`
-	Known         map[string]int      `json:"known"`          // known-finding signature -> hits
-	KnownDetail   map[string]string   `json:"known_detail"`
-	Violation     *world.Violation    `json:"violation,omitempty"`
-	ReplayFile    string              `json:"replay_file,omitempty"`
-	Infra         []string            `json:"infra,omitempty"`
-	Samples       []json.RawMessage   `json:"samples"`
-	WallS         float64             `json:"wall_s"`
-	EnumTotal     int                 `json:"enum_total,omitempty"`
-	EnumDone      int                 `json:"enum_done,omitempty"`
-	Ends          map[string]int      `json:"ends"`
+	Prop        string            `json:"prop"`
+	Seed        uint64            `json:"seed"`
+	Runs        int               `json:"runs"`
+	Nontrivial  int               `json:"nontrivial"`
+	Hashes      map[string]bool   `json:"hashes"`    // distinct event-log hashes
+	NTHashes    map[string]bool   `json:"nt_hashes"` // ... among non-trivial runs
+	SimSeconds  float64           `json:"sim_seconds"`
+	Steps       int               `json:"steps"`
+	Probes      map[string]int    `json:"probes"`
+	States      map[string]bool   `json:"states"`
+	Known       map[string]int    `json:"known"` // known-finding signature -> hits
+	KnownDetail map[string]string `json:"known_detail"`
+	Violation   *world.Violation  `json:"violation,omitempty"`
+	ReplayFile  string            `json:"replay_file,omitempty"`
+	Infra       []string          `json:"infra,omitempty"`
+	Samples     []json.RawMessage `json:"samples"`
+	WallS       float64           `json:"wall_s"`
+	EnumTotal   int               `json:"enum_total,omitempty"`
+	EnumDone    int               `json:"enum_done,omitempty"`
+	Ends        map[string]int    `json:"ends"`
 }
 
 type knownFile struct {
@@ -220,6 +220,19 @@ func TestProp(t *testing.T) {
 		}
 		if v := judge(def, known, r, out); v != nil {
 			out.Violation = v
+		}
+		return
+	case "hashes":
+		// determinism self-test: print one line per plan with the event-log hash
+		g := rapid.Custom(func(rt *rapid.T) *world.Plan { return def.Gen(rt, *fTier) })
+		for i := 0; i < *fRuns; i++ {
+			p := g.Example(int(*fSeed)*100000 + i)
+			r := world.Run(t, p, def.Monitors)
+			out.absorb(def, p, r)
+			fmt.Printf("HASH %d %s steps=%d end=%s viol=%d infra=%d\n", i, r.LogHash, r.Steps, r.End, len(r.Violations), len(r.Infra))
+			if d := os.Getenv("VERIF_DUMPLOGS"); d != "" {
+				os.WriteFile(fmt.Sprintf("%s/log_%d.txt", d, i), []byte(strings.Join(r.Log, "\n")), 0o644)
+			}
 		}
 		return
 	case "search":
